@@ -519,6 +519,10 @@ def genbankParser (reg : Registry) : P (Record × Registry) := do
       date := l.date }
     let n := (← getS).rest.length
     let (f, tab, org, reg') ← recordLoop l.length l.depth (2 * n + 2) (f, [], .buffer [], reg)
+    -- 6813da5: a record that declares residues carries an ORIGIN block of that length, or a
+    -- CONTIG line instead of the sequence
+    let m := org.len
+    if m ≠ l.length ∧ (m ≠ 0 ∨ f.contigAcc.isEmpty) then fail
     pure (⟨f, tab, org⟩, reg')
 
 /-- the scan loop on a byte string: records until the input is used up; `ok = false` when a
